@@ -113,7 +113,7 @@ def build(case, with_slicers=True):
   from ml_metrics._src.chainables import transform  # pylint: disable=g-import-not-at-top
   t = transform.TreeTransform.new()
   for i, a in enumerate(case['aggs']):
-    fn = {'sum': targets.SumAgg, 'counter': lambda: rolling_stats.Counter().as_agg_fn(), 'nested': NestedSumAgg}[a['kind']]()
+    fn = {'sum': targets.HalfSumAgg, 'counter': lambda: rolling_stats.Counter().as_agg_fn(), 'nested': NestedSumAgg}[a['kind']]()
     ik = a['in'][0] if len(a['in']) == 1 and a.get('in_single') else tuple(a['in'])
     ok = a['out'][0] if len(a['out']) == 1 else tuple(a['out'])
     kw = dict(fn=fn, input_keys=ik, output_keys=ok, disable_slicing=a.get('disable_slicing', False))
@@ -148,7 +148,7 @@ def to_batch(b):
 def agg_value(a, rows):
   """Brute-force aggregate of one aggregate spec over a list of row dicts (already masked where applicable)."""
   if a['kind'] == 'sum':
-    return [sum(int(r[c]) for r in rows for c in a['in']), len(rows)]
+    return [sum(int(round(float(r[c]) * 2)) for r in rows for c in a['in']), len(rows)]     # HalfSumAgg: units of one half
   if a['kind'] == 'counter':
     return dict(collections.Counter(r[a['in'][0]] for r in rows))
   if a['kind'] == 'nested':
@@ -375,7 +375,8 @@ def strat(tier):
     if family == 'rows':
       kinds = draw(st.lists(st.sampled_from(['feature1', 'feature2', 'cross', 'fan', 'within']), max_size=3, unique=True))
       for k in kinds:
-        rep = draw(st.sampled_from([None, None, None, 0, 7]))
+        # fill values incl. fractions, which an integer column cannot hold (the masked column is promoted)
+        rep = draw(st.sampled_from([None, None, None, 0, 7, 0.5, 2.5]))
         if k == 'feature1':
           slicers.append({'kind': 'feature', 'features': ['f1'], 'single': draw(st.booleans()), 'replace': rep})
         elif k == 'feature2':
